@@ -123,4 +123,12 @@ CHECKS["C18"] = {
     "level_note": SYS_NOTE + "; a kill is emulated in-process by closing gossip sockets, listeners and sessions without leave",
 }
 
+CHECKS["C16"] = {
+    "subs": [{"pkg": "sys", "test": "TestC16", "quick": 40, "thorough": 800, "shards_quick": 8, "shards_thorough": 12, "shrinktime": "10s", "timeout_quick": 1200, "timeout_thorough": 7200}],
+    "engine": "SYS",
+    "level_text": "Generated connection-ending scenarios (every ending mode, order, siblings, in-flight requests, token expiry with the option on/off) on real servers; at each quiescent point the status API registry, the cluster state and the open-session count must equal the model of open connections, and expiry must fall in [exp, exp+deadline]. Exploration only.",
+    "technique": "fault-scenario PBT (rapid) on real servers; oracle = model of open connections vs registry/cluster/sessions, wall-clock window for expiry",
+    "level_note": SYS_NOTE + "; the upstream after go-away may be registered or not until it disconnects (the proxy removes it on ErrGone)",
+}
+
 NOT_APPLICABLE = {}
